@@ -18,6 +18,7 @@ def main():
     ck.bounds.append(rule)
     ck.outside.append('more than %d non-nominal reads in one run; more than %d candidates; readers that return n > len(p) or panic (contract violations of io.Reader); blocking readers' % (budget, maxc))
     eng = proto_engine(prog)
+    eng.max_instrs = 4_000_000_000
     fails = {}
     scheds = set()
     nontrivial = set()
@@ -101,8 +102,8 @@ def main():
     def run_wrapper(which):
         def run(e):
             d, priv = int_input(e, 'd', 32, 1, N - 2)
-            rd = sm2model.new_reader(e, maxc, faults=True)
-            rd.v.fault_budget = budget
+            rd = sm2model.new_reader(e, 2, faults=True)       # wrappers: 2 candidates, 1 fault in both tiers (the schedules of the
+            rd.v.fault_budget = 1                              # digest-level function above carry the deeper bound)
             e.forbid_mixed = True
             msg = e.new_slice(sym_bytes(e, 'm', 5))
             try:
